@@ -288,13 +288,19 @@ class ParseContext(ParserEngine):
 
     def isolate(self, exp: Func) -> Any:
         self.states.push()
+        cutseen = False
         try:
             self.expcall(exp)
             return cstfinal(self.cst)
+        except FailedParse:
+            # a failure after a cut commits the option that isolates exp
+            cutseen = self.state.cutseen
+            raise
         finally:
             ast = self.ast
             self.states.pop()
             self.ast = ast
+            self.state.cutseen |= cutseen
 
     _isolate = isolate
 
